@@ -6,6 +6,7 @@ import (
 	"database/sql"
 	"encoding/json"
 	"fmt"
+	"io"
 	"log/slog"
 	"net/http"
 	"net/http/httptest"
@@ -100,13 +101,13 @@ type Env struct {
 	// WrapClient, if set, wraps the replica client handed to litestream (CONC:
 	// scheduling points before and after every remote call)
 	WrapClient func(litestream.ReplicaClient) litestream.ReplicaClient
-	opCancel  context.CancelFunc
+	opCancel   context.CancelFunc
 	// local staging fault armed by the harness step stage_fail ("open", "write", "sync")
 	stageFault    string
 	stageFaultsOn bool
-	lastMtime time.Time
-	restoreN  int
-	start     time.Time
+	lastMtime     time.Time
+	restoreN      int
+	start         time.Time
 
 	AckStartApp int // LastApp index at the start of the current op
 	Acks        []AckRec
@@ -114,16 +115,17 @@ type Env struct {
 	SitesSeen   map[string]int
 
 	// property hooks
-	OnAck       func(e *Env, opIdx int) *Violation
-	AfterOp     func(e *Env, opIdx int, op *Op, res string) *Violation
-	AtEnd       func(e *Env) *Violation
-	OnClientEnd func(e *Env, kind string, idx int, err error) *Violation
-	StrictLedger bool
-	saved        [][]byte // database images saved by save_copy steps
-	minSnapshotTXID ltx.TXID // last value returned by DB.EnforceSnapshotRetention
-	AppTrace     []Step   // every application step executed, in order
-	Cleanup      []func() // run at the end of the run inside the bubble (stop helper goroutines)
-	AppTraceRes  []bool   // whether it took effect (result ok)
+	OnAck           func(e *Env, opIdx int) *Violation
+	AfterOp         func(e *Env, opIdx int, op *Op, res string) *Violation
+	AtEnd           func(e *Env) *Violation
+	OnClientEnd     func(e *Env, kind string, idx int, err error) *Violation
+	StrictLedger    bool
+	saved           [][]byte      // database images saved by save_copy steps
+	minSnapshotTXID ltx.TXID      // last value returned by DB.EnforceSnapshotRetention
+	snapRd          io.ReadCloser // snapshot reader that stays open across operations (snap_open .. snap_close)
+	AppTrace        []Step        // every application step executed, in order
+	Cleanup         []func()      // run at the end of the run inside the bubble (stop helper goroutines)
+	AppTraceRes     []bool        // whether it took effect (result ok)
 }
 
 type AckRec struct {
@@ -587,10 +589,30 @@ func (e *Env) startLS() error {
 	return nil
 }
 
+// closeSnapRd ends an open snapshot stream (N=0: read to the end first, as an
+// upload that completes; otherwise abandon it, as an upload that failed).
+func (e *Env) closeSnapRd(drain bool) string {
+	if e.snapRd == nil {
+		return "noop:none"
+	}
+	var err error
+	if drain {
+		_, err = io.Copy(io.Discard, e.snapRd)
+	}
+	cerr := e.snapRd.Close()
+	e.snapRd = nil
+	synctest.Wait()
+	if err == nil {
+		err = cerr
+	}
+	return errStr(err)
+}
+
 func (e *Env) stopLS(ctx context.Context) error {
 	if e.LS == nil {
 		return nil
 	}
+	e.closeSnapRd(false)
 	err := e.LS.Store.Close(ctx)
 	e.LS = nil
 	return err
@@ -632,6 +654,7 @@ func (e *Env) execOp(op *Op) (string, bool) {
 		return "ok", false
 	}
 	if x, ok := extraOps[op.Kind]; ok {
+		e.closeSnapRd(false) // lifecycle and property-specific operations run without a snapshot stream in flight
 		return x(e, op)
 	}
 	if e.LS == nil {
@@ -639,6 +662,23 @@ func (e *Env) execOp(op *Op) (string, bool) {
 	}
 	db := e.LS.DB
 	switch op.Kind {
+	case "snap_open":
+		// a snapshot upload that has started and is still streaming while later
+		// operations run (the store's snapshot monitor, another goroutine in the
+		// daemon): internal checkpoints are skipped until it ends
+		if e.snapRd != nil {
+			return "noop:open", false
+		}
+		_, rd, err := db.SnapshotReader(context.Background())
+		if err != nil {
+			return errStr(err), false
+		}
+		e.snapRd = rd
+		synctest.Wait() // the encoder goroutine is parked on the pipe
+		e.Res.Probes["snapshot_streams_opened"]++
+		return "ok", false
+	case "snap_close":
+		return e.closeSnapRd(op.N == 0), false
 	case "ls_sync":
 		return errStr(db.Sync(ctx)), false
 	case "ls_replica_sync":
